@@ -59,6 +59,7 @@ pub struct MomCensus {
     pub mirrored_pairs: u64,
     pub mirrored_orders_compared: u64,
     pub multi_asset_paths: u64,
+    pub negative_demand_or_scale_paths: u64,
     pub unsaturated_trials: u64,
     pub unsaturated_limit_trials: u64,
     pub half_tick_mids: u64,
@@ -66,7 +67,7 @@ pub struct MomCensus {
 impl MomCensus {
     fn merge(&mut self, o: &MomCensus) {
         macro_rules! add { ($($f:ident),*) => { $( self.$f += o.$f; )* } }
-        add!(paths, updates, saturated_updates, saturated_buy_updates, saturated_sell_updates, zero_momentum_updates, reversal_updates, orders, buys, sells, limit_orders, mirrored_pairs, mirrored_orders_compared, multi_asset_paths, unsaturated_trials, unsaturated_limit_trials, half_tick_mids);
+        add!(paths, updates, saturated_updates, saturated_buy_updates, saturated_sell_updates, zero_momentum_updates, reversal_updates, orders, buys, sells, limit_orders, mirrored_pairs, mirrored_orders_compared, multi_asset_paths, negative_demand_or_scale_paths, unsaturated_trials, unsaturated_limit_trials, half_tick_mids);
     }
 }
 
@@ -98,6 +99,9 @@ fn run_host<H: Host>(mut host: H, c: &MomCfg, cs: &mut MomCensus, tallies: &mut 
     cs.paths += 1;
     if c.market {
         cs.multi_asset_paths += 1;
+    }
+    if c.demand < 0.0 || c.scale < 0.0 {
+        cs.negative_demand_or_scale_paths += 1;
     }
     for (step, k) in c.path.iter().enumerate() {
         // harness-only steps: cancel everything, then quote one tick either side of the level
@@ -237,6 +241,10 @@ pub fn random_cfg(rng: &mut Sm, i: usize, saturated: bool) -> MomCfg {
         path.push(cur as u32);
     }
     let demand = if saturated { n_agents as f64 * *rng.pick(&[5.0, 20.0, 200.0]) } else { n_agents as f64 * *rng.pick(&[0.2, 0.5, 0.9]) };
+    // the documented probability takes the magnitude of demand*tanh(scale*M), the direction comes from the sign of M
+    // alone: a fifth of the configurations carry a negative demand and a fifth a negative scale (independently)
+    let demand = if rng.chance(0.2) { -demand } else { demand };
+    let scale_sign = if rng.chance(0.2) { -1.0 } else { 1.0 };
     MomCfg {
         market,
         asset: if market { rng.below(2) as usize } else { 0 },
@@ -246,7 +254,7 @@ pub fn random_cfg(rng: &mut Sm, i: usize, saturated: bool) -> MomCfg {
         trade_vol: rng.range(1, 100) as u32,
         decay: *rng.pick(&[0.2, 0.5, 0.9, 1.0]),
         demand,
-        scale: *rng.pick(&[0.5, 2.0, 10.0]),
+        scale: scale_sign * *rng.pick(&[0.5, 2.0, 10.0]),
         order_ratio: *rng.pick(&[0.0, 1.0, 1.0, 3.0]),
         mu: 1.0,
         sigma: 0.5,
@@ -386,6 +394,7 @@ pub fn c17(ctx: &Ctx) -> i32 {
         ("reversal_updates", cs.reversal_updates, 500),
         ("mirrored_pairs", cs.mirrored_pairs, 1000),
         ("multi_asset_paths", cs.multi_asset_paths, 500),
+        ("negative_demand_or_scale_paths", cs.negative_demand_or_scale_paths, 200),
         ("unsaturated_trials", cs.unsaturated_trials, 20_000),
         ("unsaturated_limit_trials", cs.unsaturated_limit_trials, 10_000),
         ("half_tick_mids", cs.half_tick_mids, 2000),
@@ -393,7 +402,7 @@ pub fn c17(ctx: &Ctx) -> i32 {
     let cov = json!({
         "evaluations": cs.updates,
         "distinct_nontrivial": d.len(),
-        "rule": "cases = momentum-agent update calls along harness-imposed mid-price paths (the harness cancels everything and re-quotes around the path level with huge volume — two-tick spread for mids on the grid, one-tick spread for half-tick mids — in harness-only steps, so the agent's orders never move the touch); rising / falling / mixed / flat / trend-with-reversals paths, decay/scale/demand/order-ratio grids, 1..20 traders, single- and multi-asset; judged: side = sign(M) with M recomputed from the observed mids, exactly one market order (and one limit order if ratio*|p| >= 1) per trader when |demand*tanh(scale*M)|/n >= 1, nothing when M = 0, Binomial band when unsaturated, and mirrored-run comparison (path k vs 2L-k with identical seeds: same steps, traders, kinds and volumes, opposite sides; prices are not compared); distinct = distinct (path, agent seed) pairs; non-trivial = the path both rises and falls",
+        "rule": "cases = momentum-agent update calls along harness-imposed mid-price paths (the harness cancels everything and re-quotes around the path level with huge volume — two-tick spread for mids on the grid, one-tick spread for half-tick mids — in harness-only steps, so the agent's orders never move the touch); rising / falling / mixed / flat / trend-with-reversals paths, decay/scale/demand/order-ratio grids (demand and scale of either sign), 1..20 traders, single- and multi-asset; judged: side = sign(M) with M recomputed from the observed mids, exactly one market order (and one limit order if ratio*|p| >= 1) per trader when |demand*tanh(scale*M)|/n >= 1, nothing when M = 0, Binomial band when unsaturated, and mirrored-run comparison (path k vs 2L-k with identical seeds: same steps, traders, kinds and volumes, opposite sides; prices are not compared); distinct = distinct (path, agent seed) pairs; non-trivial = the path both rises and falls",
         "samples": samples,
         "census": cs,
         "unsaturated_bands": bands,
